@@ -54,6 +54,7 @@ class SimKernel(object):
         self.fork_owner = None  # callback -> owner index
         self.flags = {}         # fd -> status flags set through fcntl(F_SETFL)
         self.hangs = []         # calls that would have blocked for ever on a blocking descriptor
+        self.jobstopped = []    # live children stopped by SIGSTOP/SIGTSTP and not yet reported to a WUNTRACED waiter
 
     def _fault(self, name):
         q = self.faults.get(name)
@@ -191,6 +192,14 @@ class SimKernel(object):
 
     def waitpid(self, pid, flags):
         self._fault('waitpid')
+        if not flags & _real_os.WNOHANG and not self.zombies and self.live:
+            # a blocking wait while every child is alive: the real call would not return
+            self.hangs.append(('waitpid', -1))
+        if flags & _real_os.WUNTRACED and self.jobstopped:
+            # a job-control stop is reported only to a waiter that asks for it (WUNTRACED): the child is ALIVE
+            p = self.jobstopped.pop(0)
+            if p in self.live:
+                return p, (19 << 8) | 0x7f
         if self.zombies:
             p, sts = self.zombies.pop(0)
             self.trace.append(('wait', p, sts))
@@ -205,6 +214,13 @@ class SimKernel(object):
             return
         pid = self.live[k % len(self.live)]
         self._die(pid, status)
+
+    def child_jobstop(self, k):
+        """the k-th live child is stopped by job control (SIGSTOP): it stays alive"""
+        if self.live:
+            pid = self.live[k % len(self.live)]
+            if pid not in self.jobstopped:
+                self.jobstopped.append(pid)
 
     def child_write(self, k, chan, data):
         """the k-th live child writes to its stdout (chan 1) or stderr (chan 2)"""
